@@ -404,14 +404,29 @@ fn json_media_type() -> String {
     ["application/json", "application/json; charset=utf-8", "application/graphql+json", "application/graphql-response+json", "APPLICATION/JSON", "application/graphql+json; charset=utf-8", "Application/GraphQL+JSON"][draw(7) as usize].to_string()
 }
 
+/// JSON documents may be surrounded by white space (pretty-printed bodies start with a newline often enough).
+fn json_pad(body: Vec<u8>) -> Vec<u8> {
+    let ws: [&[u8]; 4] = [b" ", b"\n", b"\r\n\t", b"  \n "];
+    let mut v = vec![];
+    if chance(1, 4) {
+        v.extend_from_slice(ws[draw(4) as usize]);
+        sim::count("probe:json-body-with-leading-white-space");
+    }
+    v.extend_from_slice(&body);
+    if chance(1, 4) {
+        v.extend_from_slice(ws[draw(4) as usize]);
+    }
+    v
+}
+
 fn c23_encodings(faults: bool, out: &mut CaseOut) {
     let r = gen_req();
-    let single = serde_json::to_vec(&req_json(&r)).unwrap();
+    let single = json_pad(serde_json::to_vec(&req_json(&r)).unwrap());
     let others: Vec<GenReq> = (0..draw(3)).map(|_| gen_req()).collect();
     let pos = draw(others.len() as u32 + 1) as usize;
     let mut batch_items: Vec<J> = others.iter().map(req_json).collect();
     batch_items.insert(pos, req_json(&r));
-    let batch = serde_json::to_vec(&J::Array(batch_items)).unwrap();
+    let batch = json_pad(serde_json::to_vec(&J::Array(batch_items)).unwrap());
     let qs = req_query_string(&r);
     let mp = multipart_body(&[
         Part { name: "operations".into(), filename: None, content_type: if chance(1, 2) { Some(json_media_type()) } else { None }, data: single.clone() },
@@ -571,7 +586,7 @@ fn c23_batch(out: &mut CaseOut) {
             }
         })
         .collect();
-    let body = serde_json::to_vec(&J::Array(items.clone())).unwrap();
+    let body = json_pad(serde_json::to_vec(&J::Array(items.clone())).unwrap());
     let plan = draw_plan(false, body.len());
     let (reader, _stats) = SimReader::new(body, plan);
     set_latency(draw(1 << 16) as u64, [2u32, 1, 3, 0][draw(4) as usize]);
@@ -1070,6 +1085,25 @@ fn run_c24(variant: usize) -> CaseOut {
             }
             let (ri, p) = free.remove(draw(free.len() as u32) as usize);
             binding.insert((ri, p.clone()), fi);
+            // the hole a map entry points at is usually null; now and then the client left another value there
+            if chance(1, 6) {
+                let filler = [json!(""), json!("f.bin"), json!({}), json!(0), json!(false), json!([])][draw(6) as usize].clone();
+                let mut cur = &mut vars[ri];
+                let segs: Vec<&str> = p.split('.').skip(1).collect();
+                for (k, seg) in segs.iter().enumerate() {
+                    let next = match seg.parse::<usize>() {
+                        Ok(i) => cur.get_mut(i),
+                        Err(_) => cur.get_mut(*seg),
+                    };
+                    let Some(next) = next else { break };
+                    if k + 1 == segs.len() {
+                        *next = filler.clone();
+                        sim::count("probe:mapped-position-not-null");
+                        break;
+                    }
+                    cur = next;
+                }
+            }
             paths.push(if n_req == 0 { p } else { format!("{ri}.{p}") });
         }
         if paths.len() >= 2 {
